@@ -8,7 +8,6 @@ import (
 	"go/types"
 	"os"
 	"reflect"
-	"sort"
 	"strings"
 )
 
@@ -980,47 +979,272 @@ func ruleDebug(c *Ctx) {
 			ts = s
 		}
 	}
+	// DB-1 / DB-2 by partial evaluation of wrapForDebug for each node kind (not by the shape of its arms): which value does it
+	// return for a node of kind K — the closure it was given (not recorded), or a recorder around that closure — and which
+	// column does the recorder pass to Record.Rec. Locals, tuple assignments, guard clauses on known flags and helpers that the
+	// normalisation layer inlined are all followed.
 	if ts != nil {
-		cases := c.tsCases(ts)
-		wrapped := map[string]string{"parser/ast.IdentExpr": "(CallExpr Fun:(SelectorExpr pos Sel:DBGCol) Args:[(SelectorExpr $e Sel:Col)])", "parser/ast.CallExpr": "(SelectorExpr $e Sel:DBGCol)", "parser/ast.SubscriptExpr": "(SelectorExpr $e Sel:DBGCol)", "parser/ast.MemberExpr": "(SelectorExpr $e Sel:DBGCol)"}
-		var names []string
-		for k := range cases {
-			names = append(names, k)
+		var nodeParam, clParam types.Object
+		for _, fl := range wd.Type.Params.List {
+			for _, nm := range fl.Names {
+				switch typeStr(c.typeOf(fl.Type)) {
+				case "parser/ast.Expr":
+					nodeParam = c.objOf(nm)
+				case "compiler.Closure":
+					clParam = c.objOf(nm)
+				}
+			}
 		}
-		sort.Strings(names)
-		for _, k := range names {
-			if k == "default" {
+		wantCol := map[string]string{"parser/ast.IdentExpr": "(CallExpr Fun:(SelectorExpr pos Sel:DBGCol) Args:[(SelectorExpr $e Sel:Col)])", "parser/ast.CallExpr": "(SelectorExpr $e Sel:DBGCol)", "parser/ast.SubscriptExpr": "(SelectorExpr $e Sel:DBGCol)", "parser/ast.MemberExpr": "(SelectorExpr $e Sel:DBGCol)"}
+		okRecorder := 0
+		for _, k := range c.exprNodeTypes() {
+			if sugarNodes[k] {
 				continue
 			}
-			cc := cases[k]
-			s := c.sxN(wd, cc.Body)
-			if col, ok := wrapped[k]; ok {
-				c.R.Check(s == "[(ReturnStmt Results:[(CallExpr Fun:$0 Args:["+col+" $p1])])]", "closure.wrapForDebug", "DB-1 "+k+" recorded at its own column", cc.Pos(), "recordVal(<column of the term>, cl)", "term kind is not wrapped with its own column")
+			env := map[types.Object]ast.Expr{}
+			tsv := map[types.Object]bool{nodeParam: true}
+			var result ast.Expr
+			unknown := ""
+			var resolveIdent func(e ast.Expr, d int) ast.Expr
+			resolveIdent = func(e ast.Expr, d int) ast.Expr {
+				e = unparen(e)
+				if id, ok := e.(*ast.Ident); ok && d < 12 {
+					if v, ok := env[c.objOf(id)]; ok {
+						return resolveIdent(v, d+1)
+					}
+				}
+				return e
+			}
+			boolOf := func(e ast.Expr) (bool, bool) {
+				e = resolveIdent(e, 0)
+				neg := false
+				if u, ok := e.(*ast.UnaryExpr); ok && u.Op == token.NOT {
+					neg = true
+					e = resolveIdent(u.X, 0)
+				}
+				if v := c.constOf(e); v != nil && v.Kind() == constant.Bool {
+					return constant.BoolVal(v) != neg, true
+				}
+				return false, false
+			}
+			var exec func(list []ast.Stmt) bool // true: returned
+			exec = func(list []ast.Stmt) bool {
+				for _, st := range list {
+					switch x := st.(type) {
+					case *ast.AssignStmt:
+						if len(x.Lhs) == len(x.Rhs) {
+							vals := make([]ast.Expr, len(x.Rhs))
+							for i := range x.Rhs {
+								vals[i] = x.Rhs[i]
+							}
+							for i, l := range x.Lhs {
+								if id, ok := l.(*ast.Ident); ok {
+									if o := c.objOf(id); o != nil {
+										// keep the value expression with its own identifiers resolved later (single static assignment per path)
+										env[o] = vals[i]
+									}
+								}
+							}
+						}
+					case *ast.TypeSwitchStmt:
+						scr := tsScrutinee(x)
+						if scr == nil || !tsv[c.objOf(resolveIdent(scr, 0))] && c.objOf(scr) != nodeParam {
+							unknown = "type switch over something else than the node"
+							return true
+						}
+						var pick, def *ast.CaseClause
+						for _, cs := range x.Body.List {
+							cc := cs.(*ast.CaseClause)
+							if cc.List == nil {
+								def = cc
+							}
+							for _, te := range cc.List {
+								t := c.typeOf(te)
+								if pt, ok := t.(*types.Pointer); ok {
+									t = pt.Elem()
+								}
+								if typeStr(t) == k {
+									pick = cc
+								}
+							}
+						}
+						if pick == nil {
+							pick = def
+						}
+						if pick == nil {
+							continue
+						}
+						if o := c.tsVar(x, pick); o != nil {
+							tsv[o] = true
+						}
+						if exec(pick.Body) {
+							return true
+						}
+					case *ast.IfStmt:
+						if x.Init != nil {
+							if exec([]ast.Stmt{x.Init}) {
+								return true
+							}
+						}
+						b, known := boolOf(x.Cond)
+						if !known {
+							unknown = "condition " + src(x.Cond) + " is not decided by the node kind"
+							return true
+						}
+						if b {
+							if exec(x.Body.List) {
+								return true
+							}
+						} else if x.Else != nil {
+							switch e := x.Else.(type) {
+							case *ast.BlockStmt:
+								if exec(e.List) {
+									return true
+								}
+							case *ast.IfStmt:
+								if exec([]ast.Stmt{e}) {
+									return true
+								}
+							}
+						}
+					case *ast.BlockStmt:
+						if exec(x.List) {
+							return true
+						}
+					case *ast.ReturnStmt:
+						if len(x.Results) == 1 {
+							result = x.Results[0]
+						}
+						return true
+					case *ast.ExprStmt:
+						if ce, ok := x.X.(*ast.CallExpr); ok && c.noReturn(ce) {
+							unknown = "fails"
+							return true
+						}
+					}
+				}
+				return false
+			}
+			exec(wd.Body.List)
+			var subst func(n ast.Node) (string, bool)
+			depth := 0
+			subst = func(n ast.Node) (string, bool) {
+				id, ok := n.(*ast.Ident)
+				if !ok {
+					return "", false
+				}
+				o := c.objOf(id)
+				if tsv[o] {
+					return "$e", true
+				}
+				if o == clParam {
+					return "$cl", true
+				}
+				if v, ok := env[o]; ok && depth < 12 {
+					depth++
+					r := sxWith(v, subst)
+					depth--
+					return r, true
+				}
+				return "", false
+			}
+			desc := "DB-1 " + k
+			if result == nil || unknown != "" {
+				if unknown == "fails" && wantCol[k] == "" {
+					c.R.Bad("closure.wrapForDebug", desc+" not recorded", wd.Pos(), "wrapForDebug fails for this node kind")
+				} else {
+					c.R.Unk("closure.wrapForDebug", desc, wd.Pos(), "what wrapForDebug returns for this kind could not be evaluated (%s)", unknown)
+				}
+				continue
+			}
+			res := resolveIdent(result, 0)
+			if wantCol[k] == "" {
+				c.R.Check(sxWith(res, subst) == "$cl", "closure.wrapForDebug", desc+" not recorded", result.Pos(), "literals and literal containers are returned unwrapped", "a literal kind is wrapped / replaced: it would show up in (or vanish from) the report")
+				continue
+			}
+			// the recorder: a call of a function that returns a function literal, or (inlined) that literal itself
+			var lit *ast.FuncLit
+			if ce, ok := res.(*ast.CallExpr); ok {
+				callee := resolveIdent(ce.Fun, 0)
+				var ft *ast.FuncType
+				var body *ast.BlockStmt
+				if fl, ok := callee.(*ast.FuncLit); ok {
+					ft, body = fl.Type, fl.Body
+				} else if _, t, b := c.funcOf(ce.Fun); b != nil {
+					ft, body = t, b
+				}
+				if body != nil && ft.Params != nil {
+					i := 0
+					for _, fl := range ft.Params.List {
+						for _, nm := range fl.Names {
+							if i < len(ce.Args) {
+								env[c.objOf(nm)] = ce.Args[i]
+							}
+							i++
+						}
+					}
+					for _, st := range body.List {
+						if as, ok := st.(*ast.AssignStmt); ok && len(as.Lhs) == len(as.Rhs) {
+							for i, l := range as.Lhs {
+								if id, ok := l.(*ast.Ident); ok {
+									env[c.objOf(id)] = as.Rhs[i]
+								}
+							}
+						}
+						if r, ok := st.(*ast.ReturnStmt); ok && len(r.Results) == 1 {
+							lit, _ = unparen(r.Results[0]).(*ast.FuncLit)
+						}
+					}
+				}
+			} else if fl, ok := res.(*ast.FuncLit); ok {
+				lit = fl
+			}
+			if lit == nil {
+				c.R.Bad("closure.wrapForDebug", desc+" recorded at its own column", result.Pos(), "term kind is not wrapped by a recorder (returns %s)", src(result))
+				continue
+			}
+			// inside the recorder: v := <cl>(env) exactly once; Rec(v, int(<column>)+1); return v
+			for _, st := range lit.Body.List {
+				if as, ok := st.(*ast.AssignStmt); ok && len(as.Lhs) == len(as.Rhs) {
+					for i, l := range as.Lhs {
+						if id, ok := l.(*ast.Ident); ok {
+							env[c.objOf(id)] = as.Rhs[i]
+						}
+					}
+				}
+			}
+			evals, recCol, retV := 0, "", ""
+			ast.Inspect(lit.Body, func(y ast.Node) bool {
+				switch n := y.(type) {
+				case *ast.CallExpr:
+					if c.calleeObj(n) == nil && sxWith(n.Fun, subst) == "$cl" {
+						evals++
+					}
+					if c.calleeName(n) == "debug.Record.Rec" && len(n.Args) == 2 {
+						recCol = sxWith(n.Args[1], subst)
+						retV = sxWith(n.Args[0], subst)
+					}
+				}
+				return true
+			})
+			wantRec := "(BinaryExpr (CallExpr Fun:int Args:[" + wantCol[k] + "]) Op:+ Y:1)"
+			returnsV := false
+			for _, r := range returnsOf(lit.Body) {
+				if len(r.Results) == 1 && sxWith(r.Results[0], subst) == retV && retV != "" {
+					returnsV = true
+				} else {
+					returnsV = false
+					break
+				}
+			}
+			c.R.Check(recCol == wantRec, "closure.wrapForDebug", desc+" recorded at its own column", result.Pos(), "the recorder passes int(<column of the term>)+1 to Record.Rec", "term kind is not wrapped with its own column (the recorder records at "+recCol+")")
+			if evals == 1 && returnsV && strings.Contains(retV, "$cl") {
+				okRecorder++
 			} else {
-				c.R.Check(s == "[(ReturnStmt Results:[$p1])]", "closure.wrapForDebug", "DB-1 "+k+" not recorded", cc.Pos(), "literals are returned unwrapped", "a literal kind is wrapped / replaced")
+				c.R.Bad("closure.wrapForDebug", "DB-2 "+k+": evaluate once, record after, return the same value", lit.Pos(), "the recorder does not evaluate the wrapped closure exactly once / record the evaluated value / return that same value")
 			}
 		}
-	}
-	// DB-2 recorder
-	var rec *ast.FuncLit
-	ast.Inspect(wd.Body, func(x ast.Node) bool {
-		if as, ok := x.(*ast.AssignStmt); ok && len(as.Lhs) == 1 && len(as.Rhs) == 1 && rec == nil {
-			if l, ok := as.Rhs[0].(*ast.FuncLit); ok && l.Type.Results != nil && len(l.Type.Results.List) == 1 && typeStr(c.typeOf(l.Type.Results.List[0].Type)) == "compiler.Closure" {
-				rec = l // the recorder factory: func(col, closure) closure
-			}
-		}
-		return true
-	})
-	if rec == nil {
-		c.R.Bad("closure.wrapForDebug", "DB-2 recorder", wd.Pos(), "recordVal literal not found")
-	} else {
-		inner := funcLits(rec.Body)
-		ok := false
-		if len(inner) == 1 {
-			s := c.sxN(rec, inner[0].Body.List)
-			ok = s == "[(AssignStmt Lhs:[$0] Tok::= Rhs:[(CallExpr Fun:$p1 Args:[$1])]) (IfStmt Init:(AssignStmt Lhs:[$2 $3] Tok::= Rhs:[(TypeAssertExpr (SelectorExpr $1 Sel:Dgb) Type:(StarExpr (SelectorExpr debug Sel:Record)))]) Cond:$3 Body:(BlockStmt [(ExprStmt (CallExpr Fun:(SelectorExpr $2 Sel:Rec) Args:[$0 (BinaryExpr (CallExpr Fun:int Args:[$p0]) Op:+ Y:1)]))])) (ReturnStmt Results:[$0])]"
-		}
-		c.R.Check(ok, "closure.wrapForDebug", "DB-2 evaluate once, record after, return the same value", rec.Pos(), "v := cl(env); record(v, col+1); return v", "the recorder does not evaluate once / record after evaluation / return the evaluated value")
+		c.R.Check(okRecorder == 4, "closure.wrapForDebug", "DB-2 evaluate once, record after, return the same value", wd.Pos(), "v := cl(env); record(v, col+1); return v — for all four recorded kinds", fmt.Sprintf("only %d of the 4 recorded kinds get a recorder that evaluates once and returns the evaluated value", okRecorder))
 	}
 	if cp := c.FuncDecl("closure", "compile"); cp != nil {
 		s := c.sxN(cp, cp.Body.List)
